@@ -343,16 +343,24 @@ def rule_atmost_adaptor(ck, u, eng, fname):
             continue
         lmap = p.loops[-1][1]
         rem = [(k, h) for k, (h, pre) in lmap.items() if pre == n_]
-        if len(rem) != 1:
-            return ck.broken('C17.e', fname, where, 'cannot identify the remaining-count variable')
-        rk, h_r = rem[0]
-        moved = L(n_) - L(h_r)
+        up = [(k, h) for k, (h, pre) in lmap.items() if pre == C(0)]
         facts = eng.path_facts(p)
+        if len(rem) == 1:
+            rk, h_r = rem[0]
+            moved = L(n_) - L(h_r)                      # countdown from n
+            left = lambda v: L(v)
+        elif len(up) == 1:
+            rk, h_r = up[0]
+            moved = L(h_r)                              # count of octets moved, from 0
+            left = lambda v: L(n_) - L(v)
+            facts = facts + [lin.le(L(h_r), L(n_))]     # inductive: 0 <= n; a step needs moved < n and moves at most what it asked for (1)
+        else:
+            return ck.broken('C17.e', fname, where, 'cannot identify the variable that counts the octets (neither a countdown from n nor a count from 0)')
         tc = transfer_calls(p)
         if not tc:
             if p.end == 'return':
                 ndone += 1
-                if not (eng.entails(facts, L(h_r)) and eng.entails(facts, -L(h_r))) or strip_cast(p.ret) != n_:
+                if not (eng.entails(facts, left(h_r)) and eng.entails(facts, -left(h_r))) or strip_cast(p.ret) != n_:
                     bad = bad or 'the loop is left with octets remaining, or the completed request does not return n'
             continue
         if len(tc) != 1:
@@ -384,7 +392,7 @@ def rule_atmost_adaptor(ck, u, eng, fname):
                               'go unreported or an error is reported as a count' % ('; '.join(fmt(c) for c in p.cond_terms()[-3:]), fmt(p.ret)))
             continue
         after = p.mem.get(rk, h_r)
-        mv = L(h_r) - L(after)
+        mv = left(h_r) - left(after)
         if mv.is_const() and mv.c == 0:
             nretry += 1
             if not any(c == ('cmp', '==', r, C(EINTR)) or c == ('cmp', '==', r, C(EAGAIN)) for c in p.cond_terms()):
